@@ -84,7 +84,7 @@ def regrid_case(draw):
     npos = int(np.prod([n for _, n in dims])) if dims else 1
     specs = [draw(gen.spectrum(kinds=("multinoisy", "multi", "sparse", "zero", "noisy", "monotone"))) for _ in range(min(npos, 3))]
     what = draw(st.sampled_from(["freq", "dir", "both", "both"]))
-    return dict(fg=fg, dg=dg, dims=dims, specs=specs, dtype=draw(st.sampled_from(["float64", "float32"])),
+    return dict(fg=fg, dg=dg, dims=dims, specs=specs, dtype=draw(st.sampled_from(["float64", "float32"])), lived=draw(gen.lived()),
                 tf=draw(target_freq(fg["f"])) if what in ("freq", "both") else None,
                 td=draw(target_dir(sorted(dg["d"]))) if what in ("dir", "both") else None,
                 m0=draw(st.booleans()), dup=draw(st.integers(0, 4)) == 0, as_list=draw(st.booleans()),
@@ -94,7 +94,7 @@ def regrid_case(draw):
 def _source(case):
     import xarray as xr
 
-    da = gen.build_dataarray(case["fg"], case["dg"], case["specs"], case["dims"], dtype=case["dtype"])
+    da = gen.build_dataarray(case["fg"], case["dg"], case["specs"], case["dims"], dtype=case["dtype"], lived=case.get("lived"))
     lowest = float(np.min(da.dir.values))
     dup = bool(case.get("dup")) and ((lowest + 360.0) % 360.0 == lowest)
     if dup:
@@ -241,14 +241,14 @@ def rot_case(draw):
     dims = draw(gen.extra_dims(maxdims=1, maxsize=3))
     npos = int(np.prod([n for _, n in dims])) if dims else 1
     specs = [draw(gen.spectrum(kinds=("multinoisy", "multi", "sparse", "zero"))) for _ in range(min(npos, 3))]
-    return dict(fg=fg, dg=dg, dims=dims, specs=specs, dtype=draw(st.sampled_from(["float64", "float32"])),
+    return dict(fg=fg, dg=dg, dims=dims, specs=specs, dtype=draw(st.sampled_from(["float64", "float32"])), lived=draw(gen.lived()),
                 kind=draw(st.sampled_from(["bin", "bin", "360", "any", "any"])), k=draw(st.integers(-20, 20)), a=draw(st.floats(-720, 720)))
 
 
 def check_rotate(case, ctx):
     from .c01 import _positions
 
-    da = gen.build_dataarray(case["fg"], case["dg"], case["specs"], case["dims"], dtype=case["dtype"])
+    da = gen.build_dataarray(case["fg"], case["dg"], case["specs"], case["dims"], dtype=case["dtype"], lived=case.get("lived"))
     f, d = np.array(case["fg"]["f"]), np.array(case["dg"]["d"])
     n = len(d)
     dd = 360.0 / n
